@@ -470,7 +470,7 @@ func c20shape(p *Prog, r *Report) {
 		for i := 0; i < st.NumFields(); i++ {
 			f := st.Field(i)
 			if !f.Exported() {
-				if !caches[t[1]][f.Name()] {
+				if !caches[t[1]][refName(f)] {
 					bad = append(bad, f.Name()+" (unexported: dropped by the JSON-RPC codec)")
 				}
 				continue
